@@ -83,7 +83,7 @@ WIDTH_OK = ('is_none(contexts) or (cols(matrix_of(contexts)) >= 1 if not al_is_s
 fn('mab.MAB.fit', props='C06 C07 C08 C17 C18', public=True,
    params=MAB_FIT,
    requires=['INV', 'slen(self.arms) > 0', WIDTH_OK, NONEMPTY],
-   raises='*',
+   raises='*', callee_rejects=['fit'],
    modifies=['self._imp.**', 'self._is_initial_fit'],
    # C17: every rejection happens before the first write;  C18: the implementor is given the converted arrays only
    ensures=['INV', '[C07,C08,fitted] self._is_initial_fit'])
